@@ -44,6 +44,13 @@ async def debounced_sorted_prefix(
             # item is T after checking != "__COMPLETE__"
             actual_item = cast(T, item)
             if debouncer.is_complete:
+                # The window can close before its "__COMPLETE__" marker is consumed;
+                # flush the buffered burst first so a later item never overtakes it.
+                if buffer:
+                    buffer.sort(key=key)
+                    for buffered_item in buffer:
+                        yield buffered_item
+                    buffer = []
                 yield actual_item
             else:
                 debouncer.extend_window()
